@@ -55,7 +55,7 @@ Proof. exact (fun c it inp sc H => good_full_scan c it H inp sc). Qed.
 Example C15_example :
   let r := {| r_ns := 0; r_id := 7; r_global := false; r_private := false; r_nvars := 0; r_cond := EBool true |} in
   let sc := {| s_globals := []; s_rules := [r; r]; s_nns := 1 |} in
-  let c := {| c_full := true; c_nm := false; c_cb := true; c_ev_match := true; c_ev_nomatch := false;
+  let c := {| c_full := true; c_nm := false; c_cb := true; c_ev_match := true; c_ev_nomatch := false; c_ev_import := false; c_ev_limit := false;
               c_direct := true; c_frag_noscan := false |} in
   o_events (run_scan c Never kf15_inputs sc) = [EvMatch 7; EvMatch 7]
   /\ o_events (run_scan c (AbortAt 1) kf15_inputs sc) = [EvMatch 7]
